@@ -13,6 +13,7 @@
 //   - alias: the result may alias table memory that some function of the package modifies in place
 //     (a slice/map field that is index-assigned or copied into, or records of a type whose fields are assigned through
 //     a non-fresh reference)
+//
 // Anything the analysis cannot classify is reported on the unsafe side (write, alias).
 package main
 
@@ -33,19 +34,20 @@ type structInfo struct {
 }
 
 type funcInfo struct {
-	key      string
-	recvType string
-	recvName string
-	decl     *ast.FuncDecl
-	reads    bool
-	writes   bool
-	callees  map[string]bool // same-package functions called on / with table memory: their reads and writes count
-	calleesX map[string]bool // every same-package function called: only their calls into other tables count
-	ext      map[string]bool // "Type.Method" of another table
-	alias    map[string]bool // fields (f or f[]) the result may alias
-	retCalls []retCall // same-package functions whose result flows into a returned value, with the call's arguments
-	li       *localInfo
-	params   []string
+	key         string
+	recvType    string
+	recvName    string
+	decl        *ast.FuncDecl
+	reads       bool
+	writes      bool
+	callees     map[string]bool // same-package functions called on / with table memory: their reads and writes count
+	calleesX    map[string]bool // every same-package function called: only their calls into other tables count
+	ext         map[string]bool // "Type.Method" of another table
+	alias       map[string]bool // fields (f or f[]) the result may alias
+	retCalls    []retCall       // same-package functions whose result flows into a returned value, with the call's arguments
+	li          *localInfo
+	params      []string
+	splitAtomic bool // Load() and Add()/Store()/Swap() on the same atomic field: a read-modify-write that is not atomic
 }
 
 type retCall struct {
@@ -54,12 +56,14 @@ type retCall struct {
 }
 
 type pkgInfo struct {
-	fset    *token.FileSet
-	structs map[string]*structInfo
-	funcs   map[string]*funcInfo // key: Recv.Name or Name
-	byName  map[string][]*funcInfo
-	inplace map[string]bool // fields modified in place
-	mutRec  map[string]bool // "Type.field" (or "?.field" when the type is unknown) assigned through non-fresh references
+	fset       *token.FileSet
+	structs    map[string]*structInfo
+	funcs      map[string]*funcInfo // key: Recv.Name or Name
+	byName     map[string][]*funcInfo
+	inplace    map[string]bool // fields modified in place
+	takers     map[string]bool // method key -> takes its receiver's lock
+	takerNames map[string]bool // names of such methods
+	mutRec     map[string]bool // "Type.field" (or "?.field" when the type is unknown) assigned through non-fresh references
 }
 
 func typeText(e ast.Expr) string {
@@ -211,8 +215,8 @@ func (p *pkgInfo) root(e ast.Expr) (id string, fields []string, viaSync bool, st
 		case *ast.CallExpr:
 			if s, ok := t.Fun.(*ast.SelectorExpr); ok {
 				// method call: the result is derived from the receiver, unless the receiver is a sync field
-				if p.isSyncField(s.Sel.Name) {
-					viaSync = true
+				if p.isSyncField(s.Sel.Name) || p.takerNames[s.Sel.Name] {
+					viaSync = true // what a guarded method returns is judged by that method's alias analysis
 				}
 				e = s.X
 				if inner, ok2 := s.X.(*ast.SelectorExpr); ok2 && p.isSyncField(inner.Sel.Name) {
@@ -431,6 +435,13 @@ func (li *localInfo) fresh(name string) bool {
 func (p *pkgInfo) analyse(fi *funcInfo, apiTables map[string]bool) {
 	li := p.locals(fi)
 	fi.li = li
+	callFuns := map[ast.Expr]bool{}
+	ast.Inspect(fi.decl.Body, func(n ast.Node) bool {
+		if c, ok := n.(*ast.CallExpr); ok {
+			callFuns[c.Fun] = true
+		}
+		return true
+	})
 	write := func(e ast.Expr) {
 		id, fields, viaSync, steps := p.root(e)
 		if id == "" || viaSync {
@@ -484,6 +495,9 @@ func (p *pkgInfo) analyse(fi *funcInfo, apiTables map[string]bool) {
 				write(s.X)
 			}
 		case *ast.SelectorExpr, *ast.IndexExpr:
+			if sel, isSel := s.(*ast.SelectorExpr); isSel && callFuns[sel] && len(p.byName[sel.Sel.Name]) > 0 {
+				return true // a method call, handled as a call
+			}
 			id, _, viaSync, _ := p.root(s.(ast.Expr))
 			if id != "" && li.tainted[id] && !viaSync {
 				fi.reads = true
@@ -609,6 +623,7 @@ func (p *pkgInfo) analyse(fi *funcInfo, apiTables map[string]bool) {
 	for _, ops := range atomicOps {
 		if ops["Load"] && (ops["Add"] || ops["Store"] || ops["Swap"]) {
 			fi.reads, fi.writes = true, true // an unsynchronised update of table state
+			fi.splitAtomic = true
 		}
 	}
 	// what the results may alias
@@ -868,9 +883,12 @@ func (p *pkgInfo) stmtLockCall(fi *funcInfo, s ast.Stmt) (mu, op string, deferre
 //   - the lock is released either by a deferred Unlock()/RUnlock() stated before any later table access or return, or
 //     explicitly: then every return after the Lock is immediately preceded by the Unlock in its block, nothing but a
 //     return follows an Unlock in its block, returned expressions do not touch table state, and the body ends released.
+//
 // lockHelper recognises a method whose body is exactly
+//
 //	recv.<mutex>.Lock()      (or RLock)
 //	return recv.<mutex>.Unlock   (or RUnlock; or a func literal that only calls it)
+//
 // i.e. "take the lock, hand back the function that releases it" (used as  defer x.h()() ).
 func (p *pkgInfo) lockHelper(h *funcInfo) (mutex string, write bool, ok bool) {
 	if h == nil || h.recvName == "" || len(h.decl.Body.List) != 2 {
@@ -931,231 +949,6 @@ func (p *pkgInfo) helperCall(fi *funcInfo, e ast.Expr) (mutex string, write bool
 	return p.lockHelper(p.funcs[fi.recvType+"."+sel.Sel.Name])
 }
 
-// containsLock: does the node take a lock of a receiver mutex in a way this analysis does not follow?
-func (p *pkgInfo) lockish(fi *funcInfo, depth int) bool {
-	found := false
-	ast.Inspect(fi.decl.Body, func(n ast.Node) bool {
-		c, ok := n.(*ast.CallExpr)
-		if !ok || found {
-			return !found
-		}
-		if sel, ok := c.Fun.(*ast.SelectorExpr); ok {
-			if sel.Sel.Name == "Lock" || sel.Sel.Name == "RLock" {
-				if m, ok := sel.X.(*ast.SelectorExpr); ok && p.isSyncField(m.Sel.Name) {
-					found = true
-					return false
-				}
-			}
-			if depth > 0 {
-				for _, g := range p.byName[sel.Sel.Name] {
-					if g != fi && p.lockish(g, depth-1) {
-						found = true
-					}
-				}
-			}
-		}
-		if id, ok := c.Fun.(*ast.Ident); ok && depth > 0 {
-			if g := p.funcs[id.Name]; g != nil && g != fi && p.lockish(g, depth-1) {
-				found = true
-			}
-		}
-		return !found
-	})
-	return found
-}
-
-// unclear is set by bracket when a method is not recognised as bracketed but takes a lock through something the
-// analysis does not follow (as opposed to: positively seen to access table state outside the lock)
-var unclear = map[string]bool{}
-
-func (p *pkgInfo) bracket(fi *funcInfo) (mutex string, write bool, ok bool) {
-	mutex, write, ok = p.bracket1(fi)
-	if !ok {
-		direct := false
-		for _, s := range fi.decl.Body.List {
-			if mu, op, deferred := p.stmtLockCall(fi, s); mu != "" && !deferred && (op == "Lock" || op == "RLock") {
-				direct = true
-			}
-		}
-		if !direct && p.lockish(fi, 2) {
-			unclear[fi.key] = true
-		}
-	}
-	return
-}
-
-func (p *pkgInfo) bracket1(fi *funcInfo) (mutex string, write bool, ok bool) {
-	if fi.li == nil {
-		fi.li = p.locals(fi)
-	}
-	body := fi.decl.Body.List
-	lockAt := -1
-	var lockOp string
-	for i, s := range body {
-		// defer recv.h()()  with h a lock helper: acquire here, release deferred
-		if d, isDefer := s.(*ast.DeferStmt); isDefer && len(d.Call.Args) == 0 {
-			if mu, w, ok := p.helperCall(fi, d.Call.Fun); ok {
-				return mu, w, true
-			}
-		}
-		// unlock := recv.h() ... defer unlock()
-		if as, isAssign := s.(*ast.AssignStmt); isAssign && len(as.Lhs) == 1 && len(as.Rhs) == 1 {
-			if mu, w, ok := p.helperCall(fi, as.Rhs[0]); ok {
-				if id, isId := as.Lhs[0].(*ast.Ident); isId && i+1 < len(body) {
-					if d, isDefer := body[i+1].(*ast.DeferStmt); isDefer && len(d.Call.Args) == 0 {
-						if f, isF := d.Call.Fun.(*ast.Ident); isF && f.Name == id.Name {
-							return mu, w, true
-						}
-					}
-				}
-				return "", false, false
-			}
-		}
-		mu, op, deferred := p.stmtLockCall(fi, s)
-		if mu != "" && !deferred && (op == "Lock" || op == "RLock") {
-			lockAt, mutex, lockOp = i, mu, op
-			break
-		}
-		if p.touchesTable(fi, s) {
-			return "", false, false // table state is accessed before the lock is taken
-		}
-		if _, isRet := s.(*ast.ReturnStmt); isRet {
-			return "", false, false
-		}
-	}
-	if lockAt < 0 {
-		return "", false, false
-	}
-	unlockOp := map[string]string{"Lock": "Unlock", "RLock": "RUnlock"}[lockOp]
-	write = lockOp == "Lock"
-	rest := body[lockAt+1:]
-	// deferred release: the defer comes before any table access / return / nested block that might return
-	for _, s := range rest {
-		mu, op, deferred := p.stmtLockCall(fi, s)
-		if mu == mutex && deferred && op == unlockOp {
-			// no explicit unlock of the same mutex anywhere else
-			extra := false
-			for _, s2 := range rest {
-				ast.Inspect(s2, func(x ast.Node) bool {
-					if c, ok := x.(*ast.CallExpr); ok {
-						if m2, o2 := p.lockCall(fi, c); m2 == mutex && o2 != "" {
-							if es, isDefer := s2.(*ast.DeferStmt); !(isDefer && es.Call == c) {
-								extra = true
-							}
-						}
-					}
-					return true
-				})
-			}
-			if extra {
-				return "", false, false
-			}
-			return mutex, write, true
-		}
-		if p.touchesTable(fi, s) {
-			break
-		}
-		hasRet := false
-		ast.Inspect(s, func(x ast.Node) bool {
-			if _, ok := x.(*ast.ReturnStmt); ok {
-				hasRet = true
-			}
-			return true
-		})
-		if hasRet {
-			break
-		}
-	}
-	// explicit release at every exit
-	okExplicit := true
-	var checkBlock func(list []ast.Stmt, top bool) (endsReleased bool)
-	checkBlock = func(list []ast.Stmt, top bool) bool {
-		released := false
-		for i, s := range list {
-			if released {
-				// after an Unlock only a return may follow, and it must not look at table state
-				r, isRet := s.(*ast.ReturnStmt)
-				if !isRet || p.touchesTable(fi, r) {
-					okExplicit = false
-				}
-				continue
-			}
-			mu, op, deferred := p.stmtLockCall(fi, s)
-			if mu == mutex && !deferred && op == unlockOp {
-				released = true
-				continue
-			}
-			if mu == mutex && op != "" {
-				okExplicit = false // re-locking, deferred unlock mixed with explicit ones ...
-				continue
-			}
-			switch t := s.(type) {
-			case *ast.ReturnStmt:
-				okExplicit = false // a return while the lock is held
-				_ = i
-			case *ast.BlockStmt:
-				if checkBlock(t.List, false) {
-					okExplicit = false // a nested block that releases and falls through
-				}
-			case *ast.IfStmt:
-				for cur := ast.Stmt(t); cur != nil; {
-					switch c := cur.(type) {
-					case *ast.IfStmt:
-						if checkBlock(c.Body.List, false) && !endsWithReturn(c.Body.List) {
-							okExplicit = false
-						}
-						cur = c.Else
-					case *ast.BlockStmt:
-						if checkBlock(c.List, false) && !endsWithReturn(c.List) {
-							okExplicit = false
-						}
-						cur = nil
-					default:
-						cur = nil
-					}
-				}
-			case *ast.ForStmt:
-				if checkBlock(t.Body.List, false) && !endsWithReturn(t.Body.List) {
-					okExplicit = false
-				}
-			case *ast.RangeStmt:
-				if checkBlock(t.Body.List, false) && !endsWithReturn(t.Body.List) {
-					okExplicit = false
-				}
-			case *ast.SwitchStmt, *ast.TypeSwitchStmt, *ast.SelectStmt, *ast.GoStmt, *ast.DeferStmt, *ast.LabeledStmt:
-				// not analysed: accept only if no return / unlock hides inside
-				ast.Inspect(s, func(x ast.Node) bool {
-					switch y := x.(type) {
-					case *ast.ReturnStmt:
-						okExplicit = false
-					case *ast.CallExpr:
-						if m2, _ := p.lockCall(fi, y); m2 == mutex {
-							okExplicit = false
-						}
-					}
-					return true
-				})
-			}
-		}
-		return released
-	}
-	if !checkBlock(rest, true) {
-		okExplicit = false // the body can end with the lock held
-	}
-	if okExplicit {
-		return mutex, write, true
-	}
-	return "", false, false
-}
-
-func endsWithReturn(list []ast.Stmt) bool {
-	if len(list) == 0 {
-		return false
-	}
-	_, ok := list[len(list)-1].(*ast.ReturnStmt)
-	return ok
-}
-
 func main() {
 	if len(os.Args) < 2 {
 		fmt.Fprintln(os.Stderr, "usage: lockfacts <repo root>")
@@ -1179,9 +972,13 @@ func main() {
 		calls                 []string
 		aliasDetail, mutexTxt string
 		unclear               bool
+		why                   []string
 	}
 	var facts []outFact
 	mutexOf := map[int]string{}
+	for _, pk := range []*pkgInfo{tp, fp, mp} {
+		pk.computeTakers()
+	}
 	for _, pk := range []*pkgInfo{tp, fp, mp} {
 		for _, fi := range pk.funcs {
 			pk.analyse(fi, apiTables)
@@ -1192,7 +989,7 @@ func main() {
 			for _, fi := range pk.funcs {
 				for c := range fi.callees {
 					g := pk.funcs[c]
-					if g == nil || g == fi {
+					if g == nil || g == fi || pk.lockTaker(g) {
 						continue
 					}
 					if g.reads && !fi.reads {
@@ -1268,12 +1065,28 @@ func main() {
 			if !isTable || pkgOf[fi.recvType] != pk {
 				continue
 			}
-			of := outFact{table: id, name: fi.key, reads: fi.reads, writes: fi.writes, bracket: "None"}
-			if mu, w, ok := pk.bracket(fi); ok {
-				of.bracket = fmt.Sprintf("(Some (%d, %v))", id, w)
-				mutexOf[id] = fi.recvType + "." + mu
+			// per-access analysis: every access of the method (and of the lock-expecting helpers it calls) to guarded state
+			// must lie between an acquisition of the receiver's mutex in a sufficient mode and its release on every path
+			g := pk.guard(fi)
+			of := outFact{table: id, name: fi.key, bracket: "None"}
+			switch g.status() {
+			case "ok":
+				of.reads, of.writes = g.rd, g.wr
+				if g.rd || g.wr {
+					of.bracket = fmt.Sprintf("(Some (%d, %v))", id, g.wmode)
+				}
+				if g.mutex != "" {
+					mutexOf[id] = fi.recvType + "." + g.mutex
+				}
+			case "bad":
+				// positively unguarded: reported as an access of the table outside any lock
+				of.reads, of.writes = true, g.wr || fi.writes
+				of.why = g.bad
+			default:
+				of.reads, of.writes = true, g.wr || fi.writes
+				of.unclear = true
+				of.why = g.unclear
 			}
-			of.unclear = unclear[fi.key]
 			for e := range fi.ext {
 				of.calls = append(of.calls, e)
 			}
@@ -1368,6 +1181,11 @@ func main() {
 		}
 		if f.unclear {
 			fmt.Fprintf(&sb, "  (* UNCLASSIFIED %s: takes a lock in a way the translator does not follow *)\n", f.name)
+		}
+		for i, y := range f.why {
+			if i < 3 {
+				fmt.Fprintf(&sb, "  (* %s: %s *)\n", f.name, strings.ReplaceAll(strings.ReplaceAll(y, "(*", "( *"), "*)", "* )"))
+			}
 		}
 		fmt.Fprintf(&sb, "  (* result may alias: %s *)\n  mkfact %d \"%s\" %s %v %v [%s] %v%s\n", f.aliasDetail, f.table, f.name, f.bracket, f.reads, f.writes,
 			strings.Join(calls, "; "), f.alias, sep)
